@@ -405,9 +405,10 @@ Section Decode.
 
   Theorem rle_decode_stream : rle_decode g data = Ok frame'.
   Proof.
-    unfold rle_decode. pose proof zlen_data as Hd. pose proof (zlen_nonneg _ (body segs)).
+    unfold rle_decode, rle_decode_gen. pose proof zlen_data as Hd. pose proof (zlen_nonneg _ (body segs)).
     destruct (Z.eqb_spec (zlen data) 0); [lia|].
-    rewrite new_decoder_ok. cbn [obind the_dec d_nseg]. fold n. rewrite Z.eqb_refl. fold fs.
+    destruct (Z.eqb_spec (g_npix g) 0); [pose proof npix_pos; lia|].
+    rewrite new_decoder_ok. cbn [obind the_dec d_nseg andb]. fold n. rewrite Z.eqb_refl. fold fs.
     pose proof n_range.
     rewrite (dec_segs_run (Z.to_nat n) 16 0 (zeros fs)); try lia.
     - f_equal. apply good_final. apply good_run; [lia|lia|apply good_init].
